@@ -28,6 +28,7 @@ type scen struct {
 	events  int
 	bound   int
 	horizon time.Duration
+	kinds   string // per event: 'r' regular, 'c' child, 'p' child-parent (default all regular)
 }
 
 const retention = 10 * time.Millisecond
@@ -199,6 +200,14 @@ func body(sc scen) {
 	var evs []*pipeline.Event
 	for i := 0; i < sc.events; i++ {
 		e := &pipeline.Event{Size: 1}
+		if i < len(sc.kinds) {
+			switch sc.kinds[i] {
+			case 'c':
+				e.SetChildKind()
+			case 'p':
+				e.SetChildParentKind()
+			}
+		}
 		o.idOf[e] = i
 		evs = append(evs, e)
 	}
@@ -368,6 +377,11 @@ func scenarios(thorough bool) []scen {
 	for _, dq := range []string{"", "sync", "batch1", "batch2"} {
 		s = append(s, scen{name: "w2-ffo-dq" + dq, retry: 0, sends: "ffo", dq: dq, workers: 2, count: 1, events: 2, bound: 2, horizon: 20 * time.Second})
 		s = append(s, scen{name: "w2c2-fof-dq" + dq, retry: 1, sends: "fof", dq: dq, workers: 2, count: 2, events: 3, bound: 2, horizon: 20 * time.Second})
+	}
+	// batches holding the parent and the children of a split event (Batch.ForEach skips parents; routing must not)
+	for _, dq := range []string{"", "sync", "batch2"} {
+		s = append(s, scen{name: "kinds-cpr-ff-dq" + dq, retry: 0, sends: "ff", dq: dq, workers: 1, count: 3, events: 3, kinds: "cpr", bound: 1, horizon: 20 * time.Second})
+		s = append(s, scen{name: "kinds-p-alone-dq" + dq, retry: 0, sends: "ff", dq: dq, workers: 1, count: 2, events: 2, kinds: "rp", bound: 1, horizon: 20 * time.Second})
 	}
 	// long outage in virtual time on the default schedule
 	s = append(s, scen{name: "outage-forever", retry: -1, sends: "F", dq: "", workers: 1, count: 1, events: 1, bound: 0, horizon: 40 * time.Minute})
